@@ -331,7 +331,7 @@ fn en_passant_only_evasion(rng: &mut Rng) -> Option<Pos> {
     None
 }
 
-fn candidate(rng: &mut Rng) -> Option<Pos> {
+pub fn candidate(rng: &mut Rng) -> Option<Pos> {
     match rng.below(15) {
         13 => en_passant_only_evasion(rng),
         12 | 14 => underpromotion_mate(rng),
